@@ -25,7 +25,7 @@ PROPS = {
                 "(True/False, duplicates), 0-2 metrics each with min/max/latest texts (numeric syntaxes, ties, negatives, 'unavailable', "
                 "occasionally non-numeric), strategies min/max/latest/invalid, stale lists in the stored status; non-trivial = at least one "
                 "trial carries an observation with a metric; distinct = distinct op line",
-        "trusted": ["strconv.ParseFloat as oracle (key per metric text)", "reflect.DeepEqual on the optimal trial's payload is evaluated Go-side"],
+        "trusted": ["the go/ast path-condition translator (kvh extract guards / pred / skip; what it is trusted for: DESIGN.md section 2)", "strconv.ParseFloat as oracle (key per metric text)", "reflect.DeepEqual on the optimal trial's payload is evaluated Go-side"],
         "modelled": ["UpdateExperimentStatus, updateTrialsSummary, getObjectiveMetricValue (experiment/util/status_util.go) as Katib.Exp.updateStatus/summarise/objectiveOf"],
         "level_text": "Lean theorems (C05_lists, C05_partition, C05_counters, C05_classify, C05_optimal(+_minimize/_maximize), C05_order_invariant, "
                       "C05_objective_strategy) for every trial list of the model of updateTrialsSummary; tie to util.UpdateExperimentStatus by a "
@@ -39,7 +39,7 @@ PROPS = {
         "streams": [("C03", {"quick": 30000, "thorough": 600000}), ("SIM", {"quick": 240, "thorough": 8000})],
         "rule": "same generator as C05 with stored conditions in every completion state (none/Succeeded by 3 reasons/Failed/stale False verdicts), "
                 "budgets maxTrialCount 1-6 or unset, maxFailedTrialCount 0-4 or unset, goal set/unset; non-trivial = at least one trial with a metric",
-        "trusted": ["strconv.ParseFloat as oracle"],
+        "trusted": ["the go/ast path-condition translator (kvh extract guards / pred / skip; what it is trusted for: DESIGN.md section 2)", "strconv.ParseFloat as oracle"],
         "modelled": ["UpdateExperimentStatusCondition, Mark* / setCondition (experiments/v1beta1/util.go) as Katib.Exp.updateCondition, Katib.Cond.set"],
         "level_text": "Lean theorems C03_verdict (verdict = goal > failed > max-trials > suggestion-end > running, with reasons and completion time), "
                       "C03_exclusive, C03_running_false, C03_frozen, C03_precedence, C03_rules for every budget/counter/condition list; tie to "
@@ -51,7 +51,7 @@ PROPS = {
         "prop_files": ['Katib/Props/C01.lean', 'Katib/Props/C01World.lean', 'Katib/Props/C01Parallel.lean', 'Katib/Props/C03Guards.lean'],
         "streams": [('SIM', {'quick': 240, 'thorough': 8000})],
         "rule": "seeded random schedules of the three real reconcilers on the fake client (1-2 experiments, optionally equally named in two namespaces; maxTrialCount 1-4/unset, parallel 1-3, maxFailed, goal, three resume policies, early stopping, retain, push collector), ops = reconciles with per-kind monotone lagging views (random lag, stalled informers, one kind's cache held for several reconciles - also exactly at the Experiment copy from before its verdict), write-fault masks, abort points, algorithm reply faults (short/long/error, rules RPC error), job outcomes, metric arrival (also after the verdict), early stop, deployment ready, external removal of a completed trial's run object, a run-object-creating reconcile cut off before its status write with the job finishing before the retry; scripted RPC failures cycle through gRPC status codes; then fault-free settling to quiescence, a quiescence probe, optionally one or two budget raises each with a second settling, and optionally a teardown in which Trials are deleted and reconciled while the database call or the finalizer write fails; every op's write log and the whole store are compared with the Lean model; a case = one schedule; distinct = distinct op sequence",
-        "trusted": ["controller-runtime fake client stands in for the kube-apiserver (rv conflicts, status subresource, AlreadyExists)",
+        "trusted": ["the go/ast path-condition translator (kvh extract guards / pred / skip; what it is trusted for: DESIGN.md section 2)", "controller-runtime fake client stands in for the kube-apiserver (rv conflicts, status subresource, AlreadyExists)",
                     "fake algorithm / early-stopping / DB-manager services", "typed reads inside a reconcile come from a snapshot (informer cache), run objects are read live"],
         "modelled": ["ReconcileExperiment.Reconcile / ReconcileSuggestion.Reconcile / ReconcileTrial.Reconcile and helpers as Katib.Ctl.expPlan / sugPlan / trialPlan",
                      "API-server semantics as Katib.Ctl.applyCall", "the op/step state machine Katib.Ctl.step"],
@@ -63,7 +63,7 @@ PROPS = {
         "prop_files": ['Katib/Props/C04.lean', 'Katib/Props/C04Quiescent.lean', 'Katib/Props/C04Schedules.lean', 'Katib/Props/C04Counters.lean', 'Katib/Props/C04Resume.lean', 'Katib/Props/C03Guards.lean'],
         "streams": [('SIM', {'quick': 240, 'thorough': 8000}), ('C04D', {'quick': 150, 'thorough': 3000})],
         "rule": "seeded random schedules of the three real reconcilers on the fake client (1-2 experiments, optionally equally named in two namespaces; maxTrialCount 1-4/unset, parallel 1-3, maxFailed, goal, three resume policies, early stopping, retain, push collector), ops = reconciles with per-kind monotone lagging views (random lag, stalled informers, one kind's cache held for several reconciles - also exactly at the Experiment copy from before its verdict), write-fault masks, abort points, algorithm reply faults (short/long/error, rules RPC error), job outcomes, metric arrival (also after the verdict), early stop, deployment ready, external removal of a completed trial's run object, a run-object-creating reconcile cut off before its status write with the job finishing before the retry; scripted RPC failures cycle through gRPC status codes; then fault-free settling to quiescence, a quiescence probe, optionally one or two budget raises each with a second settling, and optionally a teardown in which Trials are deleted and reconciled while the database call or the finalizer write fails; every op's write log and the whole store are compared with the Lean model; a case = one schedule; distinct = distinct op sequence; stream C04D: parallelTrialCount lowered right after a batch of Trials was created (optionally one of them already finished), the real deleteTrials branch, then the three real controllers to quiescence; only the outcome is judged (verdict reached, suggestionCount = requests = number of assignments after the deletion) - this branch is outside the Lean controller model",
-        "trusted": ["controller-runtime fake client stands in for the kube-apiserver (rv conflicts, status subresource, AlreadyExists)",
+        "trusted": ["the go/ast path-condition translator (kvh extract guards / pred / skip; what it is trusted for: DESIGN.md section 2)", "controller-runtime fake client stands in for the kube-apiserver (rv conflicts, status subresource, AlreadyExists)",
                     "fake algorithm / early-stopping / DB-manager services", "typed reads inside a reconcile come from a snapshot (informer cache), run objects are read live"],
         "modelled": ["ReconcileExperiment.Reconcile / ReconcileSuggestion.Reconcile / ReconcileTrial.Reconcile and helpers as Katib.Ctl.expPlan / sugPlan / trialPlan",
                      "API-server semantics as Katib.Ctl.applyCall", "the op/step state machine Katib.Ctl.step"],
@@ -75,7 +75,7 @@ PROPS = {
         "prop_files": ['Katib/Props/C06.lean', 'Katib/Props/C06World.lean', 'Katib/Props/C06Running.lean', 'Katib/Props/C06Objective.lean', 'Katib/Props/C06Job.lean', 'Katib/Props/C06Bridge.lean', 'Katib/Props/C06Guards.lean'],
         "streams": [('SIM', {'quick': 240, 'thorough': 8000}), ('C06J', {'quick': 4000, 'thorough': 200000})],
         "rule": "seeded random schedules of the three real reconcilers on the fake client (1-2 experiments, optionally equally named in two namespaces; maxTrialCount 1-4/unset, parallel 1-3, maxFailed, goal, three resume policies, early stopping, retain, push collector), ops = reconciles with per-kind monotone lagging views (random lag, stalled informers, one kind's cache held for several reconciles - also exactly at the Experiment copy from before its verdict), write-fault masks, abort points, algorithm reply faults (short/long/error, rules RPC error), job outcomes, metric arrival (also after the verdict), early stop, deployment ready, external removal of a completed trial's run object, a run-object-creating reconcile cut off before its status write with the job finishing before the retry; scripted RPC failures cycle through gRPC status codes; then fault-free settling to quiescence, a quiescence probe, optionally one or two budget raises each with a second settling, and optionally a teardown in which Trials are deleted and reconciled while the database call or the finalizer write fails; every op's write log and the whole store are compared with the Lean model; a case = one schedule; distinct = distinct op sequence; stream C06J: job status documents (0-4 entries of status.conditions with string members type/condition/state, status, reason, message, a stray `condition` member, lastProbeTime; no status / no conditions) x failure and success conditions of the two GJSON shapes Katib writes (`#(k==v)#|#(status==True)#`, `#(k==v)`) through the real GetDeployedJobStatus, Trial Running or not, run object named or not",
-        "trusted": ["controller-runtime fake client stands in for the kube-apiserver (rv conflicts, status subresource, AlreadyExists)",
+        "trusted": ["the go/ast path-condition translator (kvh extract guards / pred / skip; what it is trusted for: DESIGN.md section 2)", "controller-runtime fake client stands in for the kube-apiserver (rv conflicts, status subresource, AlreadyExists)",
                     "fake algorithm / early-stopping / DB-manager services", "typed reads inside a reconcile come from a snapshot (informer cache), run objects are read live"],
         "modelled": ["ReconcileExperiment.Reconcile / ReconcileSuggestion.Reconcile / ReconcileTrial.Reconcile and helpers as Katib.Ctl.expPlan / sugPlan / trialPlan",
                      "API-server semantics as Katib.Ctl.applyCall", "the op/step state machine Katib.Ctl.step", "GetDeployedJobStatus on the two condition-expression shapes as Katib.Job.jobStatus (GJSON itself is not modelled beyond them)"],
@@ -87,7 +87,7 @@ PROPS = {
         "prop_files": ['Katib/Props/C07.lean', 'Katib/Props/C07World.lean', 'Katib/Props/C07Named.lean', 'Katib/Props/C07Quiescent.lean', 'Katib/Props/C07Guards.lean'],
         "streams": [('SIM', {'quick': 240, 'thorough': 8000}), ('C07J', {'quick': 1500, 'thorough': 30000})],
         "rule": "seeded random schedules of the three real reconcilers on the fake client (1-2 experiments, optionally equally named in two namespaces; maxTrialCount 1-4/unset, parallel 1-3, maxFailed, goal, three resume policies, early stopping, retain, push collector), ops = reconciles with per-kind monotone lagging views (random lag, stalled informers, one kind's cache held for several reconciles - also exactly at the Experiment copy from before its verdict), write-fault masks, abort points, algorithm reply faults (short/long/error, rules RPC error), job outcomes, metric arrival (also after the verdict), early stop, deployment ready, external removal of a completed trial's run object, a run-object-creating reconcile cut off before its status write with the job finishing before the retry; scripted RPC failures cycle through gRPC status codes; then fault-free settling to quiescence, a quiescence probe, optionally one or two budget raises each with a second settling, and optionally a teardown in which Trials are deleted and reconciled while the database call or the finalizer write fails; every op's write log and the whole store are compared with the Lean model; a case = one schedule; distinct = distinct op sequence; stream C07J: hand-made Trials whose run spec carries the Trial's name and {the Trial's, another, no} namespace and {no, a plain, a controller} owner reference of its own, three reconciles of the real trial controller on the fake client, all Jobs of all namespaces judged",
-        "trusted": ["controller-runtime fake client stands in for the kube-apiserver (rv conflicts, status subresource, AlreadyExists)",
+        "trusted": ["the go/ast path-condition translator (kvh extract guards / pred / skip; what it is trusted for: DESIGN.md section 2)", "controller-runtime fake client stands in for the kube-apiserver (rv conflicts, status subresource, AlreadyExists)",
                     "fake algorithm / early-stopping / DB-manager services", "typed reads inside a reconcile come from a snapshot (informer cache), run objects are read live"],
         "modelled": ["ReconcileExperiment.Reconcile / ReconcileSuggestion.Reconcile / ReconcileTrial.Reconcile and helpers as Katib.Ctl.expPlan / sugPlan / trialPlan",
                      "API-server semantics as Katib.Ctl.applyCall", "the op/step state machine Katib.Ctl.step"],
@@ -99,7 +99,7 @@ PROPS = {
         "prop_files": ['Katib/Props/C08.lean', 'Katib/Props/C01World.lean', 'Katib/Props/C08Sync.lean', 'Katib/Props/C08World.lean', 'Katib/Props/C08Names.lean', 'Katib/Props/C08Guards.lean'],
         "streams": [('SIM', {'quick': 240, 'thorough': 8000}), ('C08S', {'quick': 3000, 'thorough': 100000})],
         "rule": "seeded random schedules of the three real reconcilers on the fake client (1-2 experiments, optionally equally named in two namespaces; maxTrialCount 1-4/unset, parallel 1-3, maxFailed, goal, three resume policies, early stopping, retain, push collector), ops = reconciles with per-kind monotone lagging views (random lag, stalled informers, one kind's cache held for several reconciles - also exactly at the Experiment copy from before its verdict), write-fault masks, abort points, algorithm reply faults (short/long/error, rules RPC error), job outcomes, metric arrival (also after the verdict), early stop, deployment ready, external removal of a completed trial's run object, a run-object-creating reconcile cut off before its status write with the job finishing before the retry; scripted RPC failures cycle through gRPC status codes; then fault-free settling to quiescence, a quiescence probe, optionally one or two budget raises each with a second settling, and optionally a teardown in which Trials are deleted and reconciled while the database call or the finalizer write fails; every op's write log and the whole store are compared with the Lean model; a case = one schedule; distinct = distinct op sequence; stream C08S: sequences of 1-6 real SyncAssignments calls with growing requests against a service that proposes points from a 2x2 space and (3 of 4 cases) leaves the naming to Katib, replies ok/short/long/error; names canonicalised by first appearance; model Katib.Drv.syncRound",
-        "trusted": ["controller-runtime fake client stands in for the kube-apiserver (rv conflicts, status subresource, AlreadyExists)",
+        "trusted": ["the go/ast path-condition translator (kvh extract guards / pred / skip; what it is trusted for: DESIGN.md section 2)", "controller-runtime fake client stands in for the kube-apiserver (rv conflicts, status subresource, AlreadyExists)",
                     "fake algorithm / early-stopping / DB-manager services", "typed reads inside a reconcile come from a snapshot (informer cache), run objects are read live"],
         "modelled": ["ReconcileExperiment.Reconcile / ReconcileSuggestion.Reconcile / ReconcileTrial.Reconcile and helpers as Katib.Ctl.expPlan / sugPlan / trialPlan",
                      "API-server semantics as Katib.Ctl.applyCall", "the op/step state machine Katib.Ctl.step"],
@@ -111,7 +111,7 @@ PROPS = {
         "prop_files": ['Katib/Props/C09.lean', 'Katib/Props/C09Sites.lean', 'Katib/Props/C09Skip.lean'],
         "streams": [('SIM', {'quick': 240, 'thorough': 8000}), ('C08S', {'quick': 2000, 'thorough': 60000})],
         "rule": "seeded random schedules of the three real reconcilers on the fake client (1-2 experiments, optionally equally named in two namespaces; maxTrialCount 1-4/unset, parallel 1-3, maxFailed, goal, three resume policies, early stopping, retain, push collector), ops = reconciles with per-kind monotone lagging views (random lag, stalled informers, one kind's cache held for several reconciles - also exactly at the Experiment copy from before its verdict), write-fault masks, abort points, algorithm reply faults (short/long/error, rules RPC error), job outcomes, metric arrival (also after the verdict), early stop, deployment ready, external removal of a completed trial's run object, a run-object-creating reconcile cut off before its status write with the job finishing before the retry; scripted RPC failures cycle through gRPC status codes; then fault-free settling to quiescence, a quiescence probe, optionally one or two budget raises each with a second settling, and optionally a teardown in which Trials are deleted and reconciled while the database call or the finalizer write fails; every op's write log and the whole store are compared with the Lean model; a case = one schedule; distinct = distinct op sequence; stream C08S (sequences of real SyncAssignments calls, request steps of up to 11): the request numbers the service receives are requests minus suggestionCount and requests",
-        "trusted": ["the go/ast List-call-site translator (kvh extract lists: label selectors of the controllers' Trial lists, regenerated into Katib/Gen/ListSites.lean)", "controller-runtime fake client stands in for the kube-apiserver (rv conflicts, status subresource, AlreadyExists)",
+        "trusted": ["the go/ast path-condition translator (kvh extract guards / pred / skip; what it is trusted for: DESIGN.md section 2)", "the go/ast List-call-site translator (kvh extract lists: label selectors of the controllers' Trial lists, regenerated into Katib/Gen/ListSites.lean)", "controller-runtime fake client stands in for the kube-apiserver (rv conflicts, status subresource, AlreadyExists)",
                     "fake algorithm / early-stopping / DB-manager services", "typed reads inside a reconcile come from a snapshot (informer cache), run objects are read live"],
         "modelled": ["ReconcileExperiment.Reconcile / ReconcileSuggestion.Reconcile / ReconcileTrial.Reconcile and helpers as Katib.Ctl.expPlan / sugPlan / trialPlan",
                      "API-server semantics as Katib.Ctl.applyCall", "the op/step state machine Katib.Ctl.step"],
@@ -123,7 +123,7 @@ PROPS = {
         "prop_files": ['Katib/Props/C16.lean', 'Katib/Props/C16World.lean', 'Katib/Props/C16Succeeded.lean', 'Katib/Props/C16Quiescent.lean', 'Katib/Props/C07Guards.lean', 'Katib/Props/C03Guards.lean', 'Katib/Props/C08Guards.lean'],
         "streams": [('SIM', {'quick': 240, 'thorough': 8000})],
         "rule": "seeded random schedules of the three real reconcilers on the fake client (1-2 experiments, optionally equally named in two namespaces; maxTrialCount 1-4/unset, parallel 1-3, maxFailed, goal, three resume policies, early stopping, retain, push collector), ops = reconciles with per-kind monotone lagging views (random lag, stalled informers, one kind's cache held for several reconciles - also exactly at the Experiment copy from before its verdict), write-fault masks, abort points, algorithm reply faults (short/long/error, rules RPC error), job outcomes, metric arrival (also after the verdict), early stop, deployment ready, external removal of a completed trial's run object, a run-object-creating reconcile cut off before its status write with the job finishing before the retry; scripted RPC failures cycle through gRPC status codes; then fault-free settling to quiescence, a quiescence probe, optionally one or two budget raises each with a second settling, and optionally a teardown in which Trials are deleted and reconciled while the database call or the finalizer write fails; every op's write log and the whole store are compared with the Lean model; a case = one schedule; distinct = distinct op sequence",
-        "trusted": ["controller-runtime fake client stands in for the kube-apiserver (rv conflicts, status subresource, AlreadyExists)",
+        "trusted": ["the go/ast path-condition translator (kvh extract guards / pred / skip; what it is trusted for: DESIGN.md section 2)", "controller-runtime fake client stands in for the kube-apiserver (rv conflicts, status subresource, AlreadyExists)",
                     "fake algorithm / early-stopping / DB-manager services", "typed reads inside a reconcile come from a snapshot (informer cache), run objects are read live"],
         "modelled": ["ReconcileExperiment.Reconcile / ReconcileSuggestion.Reconcile / ReconcileTrial.Reconcile and helpers as Katib.Ctl.expPlan / sugPlan / trialPlan",
                      "API-server semantics as Katib.Ctl.applyCall", "the op/step state machine Katib.Ctl.step"],
@@ -154,7 +154,7 @@ PROPS = {
                 "budget edits (change/remove any of the three), or an edit of one place of the spec enumerated by reflection over ExperimentSpec (every leaf, pointer->nil, "
                 "slice drop, map add, the unstructured template), re-defaulted as the mutating webhook does; case k edits path k mod #paths so every path is covered; "
                 "non-trivial = the spec was edited; every update also goes as an AdmissionRequest through ExperimentValidator.Handle (oldObject = the stored object, while the handler's own client holds an outdated copy); one case in eight validates against a katib-config from which the experiment's algorithm has been removed since creation",
-        "trusted": ["equality.Semantic.DeepEqual is an oracle for 'the rest of the spec is unchanged'", "IsCompletedExperimentRestartable evaluated Go-side (modelled and proved in C03/C16)"],
+        "trusted": ["the go/ast path-condition translator (kvh extract guards / pred / skip; what it is trusted for: DESIGN.md section 2)", "equality.Semantic.DeepEqual is an oracle for 'the rest of the spec is unchanged'", "IsCompletedExperimentRestartable evaluated Go-side (modelled and proved in C03/C16)"],
         "modelled": ["the oldInst != nil branch of DefaultValidator.ValidateExperiment as Katib.Upd.updErrs/admitUpdate"],
         "level_text": "Lean theorems C15_iff (admitted <=> untouched, or only budget fields differ + restartable-if-completed + maxTrialCount > status.trials), C15_noop, "
                       "C15_only_budget, C15_create_checks_kept for an arbitrary 'rest of spec' type; tie to the real validator over reflection-enumerated edits; regenerated-from-source ties C15_update_errors_are_source (update branch of ValidateExperiment) and C03_restartable_is_source",
@@ -183,7 +183,7 @@ PROPS = {
         "rule": "suggestions (names, namespaces, labels incl. the reserved katib label keys, three resume policies, early stopping on/off/empty name) x generated katib-config "
                 "suggestion entries (container name, 0-2 extra ports incl. the reserved name/number, custom serviceAccountName, volume mounts incl. suggestion-volume, mount path) "
                 "through the real composer.General on a fake client; Deployment/Service/PVC/RBAC projected on the fields that tie them together; owner references checked Go-side; stream SIM (the controller schedules of C01-C16, with write faults and aborts between the ServiceAccount / Role / RoleBinding creations): at quiescence an early-stopping experiment whose algorithm Deployment exists has all three RBAC objects",
-        "trusted": ["sigs.k8s.io/yaml round trip of the generated katib-config", "owner-reference check (SetControllerReference) evaluated Go-side"],
+        "trusted": ["the go/ast path-condition translator (kvh extract guards / pred / skip; what it is trusted for: DESIGN.md section 2)", "sigs.k8s.io/yaml round trip of the generated katib-config", "owner-reference check (SetControllerReference) evaluated Go-side"],
         "modelled": ["General.DesiredDeployment/DesiredService/DesiredVolume/DesiredRBAC, desiredContainers, util.GetSuggestion*Name, GetAlgorithmEndpoint, SuggestionLabels as Katib.Comp.*"],
         "level_text": "Lean theorems C17_selector, C17_ports, C17_endpoint, C17_listening, C17_reserved_port_rejected, C17_volume, C17_ns, C17_rbac_partial (default service account) and "
                       "C17_rbac_counterexample (custom serviceAccountName: known finding) for every suggestion and config; differential run + cross-object coherence oracle; regenerated-from-source tie C17_volume_rbac_readiness_guards_are_source (ReconcileSuggestion)",
@@ -198,7 +198,7 @@ PROPS = {
                 "nil/matching/mismatching; stop rules nil/empty/1-2; filters; file and directory sources) x environment (katib-config collector entry present/absent, waitAllProcesses, "
                 "Experiment present/absent, Suggestion present/absent, suggestion_trial_dir) through the real SidecarInjector.MutationRequired + Mutate on a fake client and, for the same pod as JSON, through the real admission handler SidecarInjector.Handle (the returned JSON patch is applied and must give the same pod; refusals must coincide); every fourth case "
                 "drives MutationRequired over a generated acyclic ownership graph (Job/ReplicaSet/Deployment/StatefulSet objects, dangling owners, Trial references of other API groups); the pod template sets shareProcessNamespace to nothing / true / false",
-        "trusted": ["sigs.k8s.io/yaml round trip of the generated katib-config", "fake client as API server", "filepath.Dir / filepath.Join / env-derived DB manager address computed Go-side and passed in"],
+        "trusted": ["the go/ast path-condition translator (kvh extract guards / pred / skip; what it is trusted for: DESIGN.md section 2)", "sigs.k8s.io/yaml round trip of the generated katib-config", "fake client as API server", "filepath.Dir / filepath.Join / env-derived DB manager address computed Go-side and passed in"],
         "modelled": ["SidecarInjector.Mutate, getMetricsCollectorContainer, getMetricsCollectorArgs, mutateMetricsCollectorVolume, mutateSuggestionVolume, mutatePodMetadata, mutatePodEnv, "
                      "wrapWorkerContainer, isPrimaryPod, needWrapWorkerContainer, getKatibJob as Katib.Pod.*"],
         "level_text": "Lean theorems C12_light(+_keeps) (non-primary and push pods: labels only, never rejected), C12_full (original containers kept in order, exactly one collector appended, "
